@@ -117,7 +117,7 @@ func hasStd(d *dialect.Dialect, id uint32, std message.Message) bool {
 
 func TestC16Automatic(t *testing.T) {
 	rec := evid.New(t, "C16", "generated node configurations (heartbeat on/off, period 20-80ms, system/autopilot type, dialect in {common, ardupilotmega, minimal, user dialects with version 0..255 with / without / with a fake HEARTBEAT or REQUEST_DATA_STREAM, none}, stream requests on/off, frequency 1..50, 1..3 channels, v1/v2 output) and histories of incoming heartbeats from generated (channel, system, component, autopilot) sources repeated several times and interleaved with other messages; oracles: heartbeats on every channel with the configured fields, status 4, dialect version, at most elapsed/period+1 of them and at least 2, none when disabled or the dialect lacks the standard message; for each distinct ArduPilot sender exactly the seven data-stream requests (1,2,3,6,10,11,12) at the configured rate addressed to it on its channel only plus one stream-requested event, nothing for other autopilots, other messages or when disabled; non-trivial = >=2 ArduPilot senders on >=2 channels plus a non-ArduPilot sender; distinct by hash of the scenario")
-	rec.Require("hb-enabled", "hb-disabled-or-missing", "sr-enabled-with-ardupilot", "sr-not-applicable", "multi-sender-multi-channel", "user-dialect", "v1-output", "several-channels-one-endpoint", "dialect-version-0", "ardupilot-sender-with-the-node's-own-ids", "more-than-1024-senders", "heartbeats-with-short-node-timeouts", "non-heartbeat-message-naming-ardupilot", "heartbeats-while-the-application-writes")
+	rec.Require("hb-enabled", "hb-disabled-or-missing", "sr-enabled-with-ardupilot", "sr-not-applicable", "multi-sender-multi-channel", "user-dialect", "v1-output", "several-channels-one-endpoint", "dialect-version-0", "ardupilot-sender-with-the-node's-own-ids", "more-than-1024-senders", "heartbeats-with-short-node-timeouts", "non-heartbeat-message-naming-ardupilot", "heartbeats-while-the-application-writes", "sibling-connection-of-the-same-endpoint-closed")
 	evid.Check(t, rec, evid.N(200, 600), func(t *rapid.T) {
 		drawNodeInit(t)
 		w := &c16World{}
@@ -232,6 +232,7 @@ func runC16(w *c16World) ([]string, error) {
 		ch        int
 		sys, comp byte
 	}
+	siblingClosed := false
 	ardu := map[key]bool{}
 	otherAutopilotMsgs := 0
 	k := 0
@@ -262,7 +263,9 @@ func runC16(w *c16World) ([]string, error) {
 			if r >= h.repeat {
 				continue
 			}
-			hb := &minimal.MessageHeartbeat{Type: 2, Autopilot: minimal.MAV_AUTOPILOT(h.autopilot), SystemStatus: 4, MavlinkVersion: 3}
+			// the vehicle's reported state changes from heartbeat to heartbeat (boot, calibrating, standby, active, ...): it is
+			// the same sender all along
+			hb := &minimal.MessageHeartbeat{Type: 2, Autopilot: minimal.MAV_AUTOPILOT(h.autopilot), SystemStatus: minimal.MAV_STATE((int(h.sys) + int(h.comp) + 3*r + 4) % 9), MavlinkVersion: 3}
 			f := ref.Frame{V2: h.v2, Seq: byte(k), Sys: h.sys, Comp: h.comp, ID: 0}
 			f.Payload = hbLay.Encode(hb, h.v2)
 			f.Checksum = f.ChecksumFor(hbLay.CRCExtra)
@@ -335,6 +338,35 @@ func runC16(w *c16World) ([]string, error) {
 		}
 		if !srActive {
 			time.Sleep(10 * time.Millisecond)
+		}
+		// one of the connections of that endpoint ends; the vehicles on its sibling connections are the senders
+		// they were, a further heartbeat from them is not a first one
+		if srActive && len(peers) >= 2 {
+			closesBefore := 0
+			for _, e := range rec.Snapshot() {
+				if _, ok := e.Ev.(*gomavlib.EventChannelClose); ok {
+					closesBefore++
+				}
+			}
+			peers[0].Conn.Close()
+			rec.WaitFor(bound, func(recs []sim.Rec) bool {
+				k := 0
+				for _, e := range recs {
+					if _, ok := e.Ev.(*gomavlib.EventChannelClose); ok {
+						k++
+					}
+				}
+				return k > closesBefore
+			})
+			hb := &minimal.MessageHeartbeat{Type: 2, Autopilot: 3, SystemStatus: 4, MavlinkVersion: 3}
+			for _, p := range peers[1:] {
+				f := ref.Frame{V2: true, Seq: 9, Sys: 1, Comp: 1, ID: 0}
+				f.Payload = hbLay.Encode(hb, true)
+				f.Checksum = f.ChecksumFor(hbLay.CRCExtra)
+				p.Send(f.Bytes()) //nolint:errcheck
+			}
+			time.Sleep(15 * time.Millisecond)
+			siblingClosed = true
 		}
 	}
 	// wait for the expected stream requests and heartbeats
@@ -642,6 +674,9 @@ func runC16(w *c16World) ([]string, error) {
 	}
 	if w.busyApp && hbExpected {
 		cls = append(cls, "heartbeats-while-the-application-writes")
+	}
+	if siblingClosed {
+		cls = append(cls, "sibling-connection-of-the-same-endpoint-closed")
 	}
 	if otherAutopilotMsgs > 0 && srActive {
 		cls = append(cls, "non-heartbeat-message-naming-ardupilot")
